@@ -275,40 +275,14 @@ func engineCells(rc *RunCtx) *Outcome {
 		}
 		outputs := mk3(c.COut, oN, oO, oT, ov)
 		var model sim.TimeSteppingModel
-		if reparam && c.MaxDim > 0 && redim {
-			// re-dimensioned: the object first holds a configuration with LONGER tables (its own matrix),
-			// then goes through the whole protocol again with this case's matrix
-			bigDim := c.MaxDim + 1 + rc.W.Choose(3)
-			var bigCols [][]float64
-			for j := 0; j < c.P; j++ {
-				force := 0
-				if j == 0 {
-					force = bigDim
-				}
-				bigCols = append(bigCols, domains.GenParams(rc.W, c.Model, bigDim, force))
-			}
-			model = setupModel(c.Model, paramMatrix(false, bigCols))
-			if dims := model.FindDimensions(params); len(dims) > 0 {
-				model.InitialiseDimensions(dims)
-			}
-			model.ApplyParameters(params)
-			o.probe("model_object_re-dimensioned_to_shorter_tables")
-		} else if reparam {
-			for j, col := range altCols {
-				for i := range col {
-					params.Set2(i, j, col[i])
-				}
-			}
-			model = setupModel(c.Model, params)
-			for j, col := range c.cols {
-				for i := range col {
-					params.Set2(i, j, col[i])
-				}
-			}
-			model.ApplyParameters(params)
-			o.probe("parameters_reapplied_through_the_same_matrix_object")
-		} else {
-			model = setupModel(c.Model, params)
+		var setupPanic interface{}
+		func() {
+			defer func() { setupPanic = recover() }()
+			model = c.configure(rc, o, params, reparam, redim, altCols)
+		}()
+		if setupPanic != nil {
+			o.fail("process-crash", c.Model+"/setup-crash", "%s: configuring the model object panicked (re-calibrated: %v, re-dimensioned: %v): %v", c.Model, reparam, redim && c.MaxDim > 0, setupPanic)
+			return o
 		}
 		if k == 0 && !c.Warm && !c.Arbitrary && c.WidestFirst {
 			// state initialisation per cell: InitialiseStates(N) of the vectorised model must give
@@ -521,7 +495,6 @@ func drawSibling(w *simrt.Tape, a *cellCase) *cellCase {
 	return c
 }
 
-
 // bigVectorisedRun: one run in 150 is large - 256 to 2048 cells with a million or more
 // cell-timesteps in total (where an implementation might start batching cells or chunking series),
 // a cheap model, few parameter sets and input blocks, so that a handful of one-cell reference runs
@@ -603,4 +576,46 @@ func bigVectorisedRun(rc *RunCtx) *Outcome {
 	o.Nontrivial = true
 	o.probe("vectorised_run_with_a_million_or_more_cell_timesteps")
 	return o
+}
+
+// configure builds the model object of one vectorised run: fresh, re-calibrated through the same
+// parameter matrix object, or re-dimensioned from a configuration with longer tables.
+func (c *cellCase) configure(rc *RunCtx, o *Outcome, params data.ND2Float64, reparam, redim bool, altCols [][]float64) sim.TimeSteppingModel {
+	var model sim.TimeSteppingModel
+	if reparam && c.MaxDim > 0 && redim {
+		// re-dimensioned: the object first holds a configuration with LONGER tables (its own matrix),
+		// then goes through the whole protocol again with this case's matrix
+		bigDim := c.MaxDim + 1 + rc.W.Choose(3)
+		var bigCols [][]float64
+		for j := 0; j < c.P; j++ {
+			force := 0
+			if j == 0 {
+				force = bigDim
+			}
+			bigCols = append(bigCols, domains.GenParams(rc.W, c.Model, bigDim, force))
+		}
+		model = setupModel(c.Model, paramMatrix(false, bigCols))
+		if dims := model.FindDimensions(params); len(dims) > 0 {
+			model.InitialiseDimensions(dims)
+		}
+		model.ApplyParameters(params)
+		o.probe("model_object_re-dimensioned_to_shorter_tables")
+	} else if reparam {
+		for j, col := range altCols {
+			for i := range col {
+				params.Set2(i, j, col[i])
+			}
+		}
+		model = setupModel(c.Model, params)
+		for j, col := range c.cols {
+			for i := range col {
+				params.Set2(i, j, col[i])
+			}
+		}
+		model.ApplyParameters(params)
+		o.probe("parameters_reapplied_through_the_same_matrix_object")
+	} else {
+		model = setupModel(c.Model, params)
+	}
+	return model
 }
